@@ -62,6 +62,44 @@ func graphGen(args []string) error {
 	r := rand.New(rand.NewSource(*seed))
 	s := &scriptWriter{w: w}
 	ids := idPool(*nids)
+	if *mode == "allgraphs" {
+		// every (graph, start node) of the TLC-exported universe (--n 0) or a seeded sample of n
+		raw, err := os.ReadFile(*universe)
+		if err != nil {
+			return err
+		}
+		var u struct {
+			All []map[string]any `json:"all"`
+		}
+		if err := json.Unmarshal(raw, &u); err != nil {
+			return err
+		}
+		sort.Slice(u.All, func(i, j int) bool { return canon(u.All[i]) < canon(u.All[j]) })
+		starts := func(g map[string]any) []string {
+			out := []string{}
+			nodes, _ := g["nodes"].([]any)
+			for _, n := range nodes {
+				out = append(out, str(n.(map[string]any), "id"))
+			}
+			sort.Strings(out)
+			return append(out, "nope")
+		}
+		if *n == 0 {
+			for _, g := range u.All {
+				for _, st := range starts(g) {
+					s.sid++
+					w.write(map[string]any{"op": "ExtractAll", "sid": s.sid, "g": g, "id": st})
+				}
+			}
+		} else {
+			for k := 0; k < *n; k++ {
+				g := u.All[r.Intn(len(u.All))]
+				s.sid++
+				w.write(map[string]any{"op": "ExtractAll", "sid": s.sid, "g": g, "id": pick(r, starts(g))})
+			}
+		}
+		return nil
+	}
 	if *mode == "allpairs" {
 		// ordered pairs of the TLC-exported universe: all of them (--n 0) or a seeded sample of n
 		raw, err := os.ReadFile(*universe)
